@@ -508,25 +508,30 @@ def run(chk):
         subj = ''.join(map(chr, g.sample(e) + [rng.choice(ALPHA)] + g.sample(e) + [rng.choice(ALPHA) for _ in range(rng.randint(0, 2))]))
         subj = subj.replace('\r', 'r')
         chk.evaluations += 1
-        chk.count('consistency')
-        v = {'s': subj, 'p': text}
+        # the four functions agree under every flag (the same translation, the same search)
+        fl = rng.choice(['', '', '', 'i', 'm', 's', 'x', 'im', 'si', 'q'])
+        if ('m' in fl or 's' in fl) and subj:
+            k = rng.randrange(len(subj) + 1)
+            subj = subj[:k] + '\n' + subj[k:]
+        chk.count('consistency' + (' flags=' + fl if fl else ''))
+        v = {'s': subj, 'p': text, 'f': fl}
         try:
-            empty = select(None, 'matches("", $p)', variables=v, parser=XPath31Parser, item=1)
+            empty = select(None, 'matches("", $p, $f)', variables=v, parser=XPath31Parser, item=1)
             if empty:
                 continue
-            m = select(None, 'matches($s, $p)', variables=v, parser=XPath31Parser, item=1)
-            tok = select(None, 'tokenize($s, $p)', variables=v, parser=XPath31Parser, item=1)
-            rep = select(None, 'replace($s, $p, "$0")', variables=v, parser=XPath31Parser, item=1)
-            res = select(None, 'analyze-string($s, $p)', variables=v, parser=XPath31Parser, item=1)
+            m = select(None, 'matches($s, $p, $f)', variables=v, parser=XPath31Parser, item=1)
+            tok = select(None, 'tokenize($s, $p, $f)', variables=v, parser=XPath31Parser, item=1)
+            rep = select(None, 'replace($s, $p, "$0", $f)' if fl != 'q' else '$s', variables=v, parser=XPath31Parser, item=1)
+            res = select(None, 'analyze-string($s, $p, $f)', variables=v, parser=XPath31Parser, item=1)
             res = res[0] if isinstance(res, list) else res
             parts = []
             for child in res:       # (the string value of mixed content is C02's known finding: use itertext)
                 parts += [child.tag.split('}')[1], ''.join(child.itertext())]
         except ElementPathError as ex:
-            chk.violation('impl-vs-spec', {'pattern': text, 'subject': subj}, 'error ' + str(ex))
+            chk.violation('impl-vs-spec', {'pattern': text, 'subject': subj, 'flags': fl}, 'error ' + str(ex))
             continue
         kinds, texts = parts[0::2], parts[1::2]
-        desc = {'pattern': text, 'subject': subj}
+        desc = {'pattern': text, 'subject': subj, 'flags': fl}
         if ''.join(texts) != subj:
             chk.violation('impl-vs-spec', desc, {'analyze-string parts': parts})
         if [t for k, t in zip(kinds, texts) if k == 'non-match'] != [t for t in tok if t != '']:
@@ -538,6 +543,8 @@ def run(chk):
         chk.nontrivial.add(text + '~' + subj)
     # ---------------- 5a. character classes under the i flag (C12/CaseClass.v): literals match their case variants, escapes do not
     case_class_section(chk, rng, quick)
+    # ---------------- 5c. the q flag (a literal pattern: C12/Literal.v) and the x flag (only #x9 #xA #xD #x20 are removed)
+    flag_q_x_section(chk, rng, quick, g)
     # ---------------- 5b. fn:replace replacement strings (F&O 5.6.4): $N is the longest group number that exists, a single digit beyond
     # the groups is the zero-length string, \\ and \$ are the escaped characters, anything else is FORX0004; with the q flag the
     # replacement (and a backslash in the input) is literal. Expected values written from the rule.
@@ -662,6 +669,82 @@ def case_class_section(chk, rng, quick):
             k = next(j for j in range(len(probes)) if got_plain[j] != mp[j])
             chk.violation('impl-vs-spec', desc | {'input': ascii(chr(probes[k])), 'flags': ''}, {'matches': bool(got_plain[k]), 'model': bool(mp[k])})
         chk.nontrivial.add('caseclass:' + text)
+
+
+def flag_q_x_section(chk, rng, quick, g):
+    from elementpath import select, ElementPathError
+    from elementpath.xpath31 import XPath31Parser
+    chk.prove(['theories/C12/Regex.v', 'theories/C12/Literal.v'], 'theories/C12/LiteralProperties.v')
+    QALPHA = list('ab.*+?|()[]{}\\^$- #&~:/') + ['\t', '\n', '\x0b', '\x0c', '\xe9', '\u3000']
+
+    def ev(expr, **v):
+        try:
+            return select(None, expr, variables=v, parser=XPath31Parser, item=1)
+        except ElementPathError as e:
+            return 'error ' + (e.code or '').split(':')[-1]
+    cases = [('a b', 'xa by'), ('#', 'a#b'), ('&', 'a&b'), ('~', '~'), ('.', 'axb'), ('.', 'a.b'), ('a b', 'ab'), ('\t', 'a\tb'), ('\\d[', 'x\\d['), ('$1', 'a$1')]
+    for _ in range(60 if quick else 3000):
+        pat = ''.join(rng.choice(QALPHA) for _ in range(rng.randint(1, 4)))
+        subj = ''.join(rng.choice(QALPHA) for _ in range(rng.randint(0, 3)))
+        if rng.random() < 0.6:
+            subj = subj[:len(subj) // 2] + pat + subj[len(subj) // 2:]
+        cases.append((pat, subj))
+    for pat, subj in cases:
+        for fl in ('q', 'qx', 'xq', 'qs', 'qm'):
+            chk.evaluations += 1
+            chk.count('flag q')
+            desc = {'pattern': pat, 'subject': subj, 'flags': fl}
+            # C12_literal_pattern: an occurrence of the literal pattern = the substring test
+            want = pat in subj
+            got = ev('matches($s, $p, $f)', s=subj, p=pat, f=fl)
+            if got != want:
+                chk.violation('impl-vs-spec', desc, {'fn:matches': got, 'substring test': want})
+            rep = ev('replace($s, $p, "<$0>", $f)', s=subj, p=pat, f=fl)      # the replacement is literal with q
+            if rep != subj.replace(pat, '<$0>'):
+                chk.violation('impl-vs-spec', desc, {'fn:replace': rep, 'str.replace': subj.replace(pat, '<$0>')})
+            tok = ev('tokenize($s, $p, $f)', s=subj, p=pat, f=fl)
+            wtok = subj.split(pat) if subj else []
+            if tok != wtok:
+                chk.violation('impl-vs-spec', desc, {'fn:tokenize': tok, 'str.split': wtok})
+        qi = ev('matches($s, $p, "qi")', s=subj.upper(), p=pat.lower())
+        if qi != (pat.lower() in subj.upper().lower()) and subj.upper().lower() == subj.lower() and len(subj.upper()) == len(subj):
+            chk.violation('impl-vs-spec', {'pattern': pat.lower(), 'subject': subj.upper(), 'flags': 'qi'}, {'fn:matches': qi})
+        chk.nontrivial.add('q:' + pat + '~' + subj)
+    # the x flag: white space (#x9 #xA #xD #x20) outside character classes is removed, nothing else: a pattern with white space
+    # inserted between its pieces behaves as the pattern without it; '#', VT and FF are ordinary characters
+    XC = [('a#b', 'a', False), ('a#b', 'a#b', True), ('a # b', 'a#b', True), ('a b', 'ab', True), ('a[ ]b', 'a b', True), ('a[ ]b', 'ab', False),
+          ('a\x0bb', 'a\x0bb', True), ('a\x0bb', 'ab', False), ('a\tb\n', 'ab', True), ('[#]', '#', True), ('\\p{ L u }', 'A', True), ('a{ 2 }', 'aa', 'any')]
+    for pat, subj, want in XC:
+        chk.evaluations += 1
+        chk.count('flag x')
+        got = ev('matches($s, $p, "x")', s=subj, p=pat)
+        if want != 'any' and got != want:
+            chk.violation('impl-vs-spec', {'pattern': pat, 'subject': subj, 'flags': 'x'}, {'fn:matches': got, 'F&O': want})
+        chk.nontrivial.add('x:' + pat + '~' + subj)
+    for _ in range(40 if quick else 1500):
+        e = g.rx(rng.choice([1, 1, 2]))
+        text = rx_text(e)
+        # safe insertion points: outside [...] and {...}, not after a backslash
+        out, depth, brace, prev = [], 0, 0, ''
+        for ch in text:
+            if depth == 0 and brace == 0 and prev != '\\' and not (ch == '{' and out[-2:-1] == ['\\']) and rng.random() < 0.3:
+                out.append(rng.choice([' ', '\t', '\n', '  ']))
+            out.append(ch)
+            if prev != '\\':
+                depth += (ch == '[') - (ch == ']' and depth > 0)
+                brace += (ch == '{') - (ch == '}' and brace > 0)
+            prev = ch if not (prev == '\\' and ch == '\\') else ''
+        spaced = ''.join(out)
+        if any(c in text for c in ' \t\n\r'):
+            continue        # the pattern itself has white space outside... its meaning changes with x
+        subj = ''.join(map(chr, g.sample(e) + [rng.choice(ALPHA)] + g.sample(e))).replace('\r', 'r')
+        chk.evaluations += 1
+        chk.count('flag x: inserted white space')
+        a = ev('matches($s, $p)', s=subj, p=text)
+        b = ev('matches($s, $p, "x")', s=subj, p=spaced)
+        if a != b:
+            chk.violation('impl-vs-spec', {'pattern': text, 'with white space': spaced, 'subject': subj, 'flags': 'x'}, {'without x': a, 'with x': b})
+        chk.nontrivial.add('xs:' + text + '~' + subj)
 
 
 def replay(rec):
